@@ -249,6 +249,9 @@ func (vm *vm) run() error {
 
 		case opDEFBLOCK:
 			// ( -- )
+			if vm.blockTos == blockStackSize {
+				return vm.runtimeError("blocks nested too deeply (max %d)", blockStackSize)
+			}
 			blk := Block{
 				Type:   readConst().(string),
 				Name:   readConst().(string),
